@@ -109,6 +109,34 @@ def gen_plan(rng, index, tier):
                 fired["permanent_departure"] = fired.get("permanent_departure", 0) + 1
     if any(arrive[a] > 0 for a in range(K)):
         fired["late_arrival"] = sum(1 for a in range(K) if arrive[a] > 0)
+    # wander: every animal walks its own way, a few pixels per frame but arbitrarily far over the clip (further than the
+    # distance to its neighbours), never coming within D_min of where any OTHER animal is or has been (local queues never forget)
+    wander = (not fast) and rng.random() < 0.3
+    path = None
+    if wander:
+        fired["wander"] = 1
+        step = rng.uniform(1.5, 3.0)
+        d_min = 60.0
+        pos = [list(h) for h in homes]
+        vel = [[rng.uniform(-step, step), rng.uniform(-step, step)] for _ in range(K)]
+        trail = [[] for _ in range(K)]  # every position an animal has ever been detected at
+        path = []
+        for t in range(F):
+            row = []
+            for a in range(K):
+                if rng.random() < 0.2:
+                    vel[a] = [rng.uniform(-step, step), rng.uniform(-step, step)]
+                for _try in range(6):
+                    nx, ny = pos[a][0] + vel[a][0], pos[a][1] + vel[a][1]
+                    ok_ = all(((nx - q[0]) ** 2 + (ny - q[1]) ** 2) ** 0.5 >= d_min for b in range(K) if b != a for q in trail[b] + [pos[b]])
+                    if ok_:
+                        pos[a] = [nx, ny]
+                        break
+                    vel[a] = [rng.uniform(-step, step), rng.uniform(-step, step)]
+                row.append(tuple(pos[a]))
+                if present[t][a]:
+                    trail[a].append(tuple(pos[a]))
+            path.append(row)
     frames = []
     for t in range(F):
         fr = []
@@ -117,6 +145,8 @@ def gen_plan(rng, index, tier):
                 continue
             cx = homes[a][0] + drift[0] * t + rng.uniform(-wob, wob)
             cy = homes[a][1] + drift[1] * t + rng.uniform(-wob, wob)
+            if path is not None:
+                cx, cy = path[t][a]
             pts = [[round(cx + o[0], 2), round(cy + o[1], 2)] for o in offs[a]]
             if n_nodes > 2 and rng.random() < 0.2:
                 for j in range(2, n_nodes):
@@ -162,7 +192,7 @@ def in_class(plan):
 def shrink(plan):
     F = len(plan["frames"])
     cands = []
-    fast = "fast_common_motion" in plan.get("faults_fired", {})
+    fast = "fast_common_motion" in plan.get("faults_fired", {}) or "wander" in plan.get("faults_fired", {})
     for cut in (F // 2, F - 1):
         if 2 <= cut < F:
             p = copy.deepcopy(plan)
@@ -250,6 +280,7 @@ def execute(plan, choices=None):
             "permuted_every_frame": int("permute_detections" in plan.get("faults_fired", {})),
             "animal_left_for_good": int("permanent_departure" in plan.get("faults_fired", {})),
             "fast_common_motion": int("fast_common_motion" in plan.get("faults_fired", {})),
+            "wander_far_over_time": int("wander" in plan.get("faults_fired", {})),
             "empty_leading_frames": int("empty_leading_frames" in plan.get("faults_fired", {})),
         },
         "faults": plan.get("faults_fired", {}),
